@@ -61,6 +61,31 @@ pub enum HOp {
     Triples(usize),
     DbCounts,
     DbIterNodes,
+    // ---- further access paths (other query languages, aggregates, direct accessors) ----
+    CypherLabelScan(usize, u8),
+    ParamsLabelScan(usize, u8),
+    GremlinLabel(usize, u8),
+    GremlinOut(usize),
+    GraphqlLabel(usize, u8),
+    SumCount(usize),
+    FilterGt(usize, i64),
+    EdgeCount(usize),
+    GetNodeProp(usize, usize, u8),
+    NeighborsIn(usize, usize),
+    NeighborsOutByType(usize, usize),
+    EdgeExists(usize, usize),
+    Degree(usize, usize),
+    TriplesBySubject(usize, u8),
+    DbIterEdges,
+    DbGetNode(usize),
+    // ---- further mutation routes ----
+    CypherCreate(usize, u8, u8, i64),
+    /// not generated: on this tree `MATCH ()-[r]->() WHERE id(r) = x DELETE r` deletes the *node*
+    /// whose id equals the edge's (both translators emit DeleteNode for every DELETE variable);
+    /// recorded in DESIGN.md as an observation outside the listed properties
+    DeleteEdgeQ(usize, usize),
+    /// plain (non-detach) DELETE of a node that has no incident edge in the writer's view
+    DeleteNodePlainQ(usize, usize),
 }
 
 impl HOp {
@@ -99,6 +124,25 @@ impl HOp {
             HOp::Triples(_) => "sparql-pattern",
             HOp::DbCounts => "db.node_count/edge_count",
             HOp::DbIterNodes => "db.iter_nodes",
+            HOp::CypherLabelScan(..) => "cypher-label-scan",
+            HOp::ParamsLabelScan(..) => "params-label-scan",
+            HOp::GremlinLabel(..) => "gremlin-hasLabel",
+            HOp::GremlinOut(_) => "gremlin-out",
+            HOp::GraphqlLabel(..) => "graphql-label",
+            HOp::SumCount(_) => "aggregate-sum-count",
+            HOp::FilterGt(..) => "filter-scan",
+            HOp::EdgeCount(_) => "count-edges",
+            HOp::GetNodeProp(..) => "get_node_property",
+            HOp::NeighborsIn(..) => "get_neighbors_incoming",
+            HOp::NeighborsOutByType(..) => "get_neighbors_outgoing_by_type",
+            HOp::EdgeExists(..) => "edge_exists",
+            HOp::Degree(..) => "get_degree",
+            HOp::TriplesBySubject(..) => "sparql-bound-subject",
+            HOp::DbIterEdges => "db.iter_edges",
+            HOp::DbGetNode(_) => "db.get_node",
+            HOp::CypherCreate(..) => "cypher-CREATE",
+            HOp::DeleteEdgeQ(..) => "DELETE-edge",
+            HOp::DeleteNodePlainQ(..) => "DELETE-node",
         }
     }
     pub fn is_observation(&self) -> bool {
@@ -116,6 +160,22 @@ impl HOp {
                 | HOp::Triples(_)
                 | HOp::DbCounts
                 | HOp::DbIterNodes
+                | HOp::CypherLabelScan(..)
+                | HOp::ParamsLabelScan(..)
+                | HOp::GremlinLabel(..)
+                | HOp::GremlinOut(_)
+                | HOp::GraphqlLabel(..)
+                | HOp::SumCount(_)
+                | HOp::FilterGt(..)
+                | HOp::EdgeCount(_)
+                | HOp::GetNodeProp(..)
+                | HOp::NeighborsIn(..)
+                | HOp::NeighborsOutByType(..)
+                | HOp::EdgeExists(..)
+                | HOp::Degree(..)
+                | HOp::TriplesBySubject(..)
+                | HOp::DbIterEdges
+                | HOp::DbGetNode(_)
         )
     }
     fn session(&self) -> Option<usize> {
@@ -125,6 +185,9 @@ impl HOp {
             HOp::SetPropQ(s, ..) | HOp::SetEdgePropQ(s, ..) | HOp::RemovePropQ(s, ..) | HOp::AddLabelQ(s, ..) | HOp::RemoveLabelQ(s, ..) | HOp::DeleteNodeQ(s, ..) => Some(*s),
             HOp::TripleInsert(s, _) | HOp::TripleDelete(s, _) => Some(*s),
             HOp::LabelScan(s, _) | HOp::AllScan(s) | HOp::Expand(s) | HOp::Count(s) | HOp::GetNode(s, _) | HOp::GetEdge(s, _) | HOp::NodeExists(s, _) | HOp::NodesBatch(s, _) | HOp::NeighborsOut(s, _) | HOp::Triples(s) => Some(*s),
+            HOp::CypherLabelScan(s, _) | HOp::ParamsLabelScan(s, _) | HOp::GremlinLabel(s, _) | HOp::GremlinOut(s) | HOp::GraphqlLabel(s, _) | HOp::SumCount(s) | HOp::FilterGt(s, _) | HOp::EdgeCount(s) => Some(*s),
+            HOp::GetNodeProp(s, ..) | HOp::NeighborsIn(s, _) | HOp::NeighborsOutByType(s, _) | HOp::EdgeExists(s, _) | HOp::Degree(s, _) | HOp::TriplesBySubject(s, _) => Some(*s),
+            HOp::CypherCreate(s, ..) | HOp::DeleteEdgeQ(s, _) | HOp::DeleteNodePlainQ(s, _) => Some(*s),
             _ => None,
         }
     }
@@ -341,6 +404,31 @@ pub fn spec_observe(st: &SState, op: &HOp) -> Vec<String> {
         HOp::Triples(_) => st.triples.iter().map(|t| format!("t{t}")).collect(),
         HOp::DbCounts => vec![format!("{}/{}", st.nodes.len(), st.edges.len())],
         HOp::DbIterNodes => st.nodes.keys().map(|s| format!("n{s}")).collect(),
+        HOp::CypherLabelScan(_, l) | HOp::ParamsLabelScan(_, l) => st
+            .nodes
+            .iter()
+            .filter(|(_, n)| n.labels.contains(LABELS[*l as usize % 3]))
+            .map(|(s, n)| node_row(&format!("n{s}"), &n.labels, &n.props))
+            .collect(),
+        HOp::GremlinLabel(_, l) => st.nodes.iter().filter(|(_, n)| n.labels.contains(LABELS[*l as usize % 3])).map(|(s, _)| format!("n{s}")).collect(),
+        HOp::GremlinOut(_) => st.edges.values().map(|x| format!("n{}", x.dst)).collect(),
+        HOp::GraphqlLabel(_, l) => st
+            .nodes
+            .values()
+            .filter(|n| n.labels.contains(LABELS[*l as usize % 3]))
+            .map(|n| format!("k={},m={}", n.props.get("k").map_or("null".to_string(), |v| v.to_string()), n.props.get("m").map_or("null".to_string(), |v| v.to_string())))
+            .collect(),
+        HOp::SumCount(_) => vec![format!("{}/{}", st.nodes.values().filter_map(|n| n.props.get("k")).sum::<i64>(), st.nodes.len())],
+        HOp::FilterGt(_, c) => st.nodes.iter().filter(|(_, n)| n.props.get("k").is_some_and(|v| v > c)).map(|(s, _)| format!("n{s}")).collect(),
+        HOp::EdgeCount(_) => vec![format!("{}", st.edges.len())],
+        HOp::GetNodeProp(_, s, k) => vec![st.nodes.get(s).and_then(|n| n.props.get(KEYS[*k as usize % 2])).map_or("none".to_string(), |v| v.to_string())],
+        HOp::NeighborsIn(_, s) => st.edges.iter().filter(|(_, x)| x.dst == *s).map(|(e, x)| format!("e{e}<-n{}", x.src)).collect(),
+        HOp::NeighborsOutByType(_, s) => st.edges.iter().filter(|(_, x)| x.src == *s).map(|(e, x)| format!("e{e}->n{}", x.dst)).collect(),
+        HOp::EdgeExists(_, e) => vec![format!("{}", st.edges.contains_key(e))],
+        HOp::Degree(_, s) => vec![format!("{}/{}", st.edges.values().filter(|x| x.src == *s).count(), st.edges.values().filter(|x| x.dst == *s).count())],
+        HOp::TriplesBySubject(_, b) => st.triples.iter().filter(|t| (**t & 1) == (*b & 1)).map(|t| format!("t{t}")).collect(),
+        HOp::DbIterEdges => st.edges.keys().map(|e| format!("e{e}")).collect(),
+        HOp::DbGetNode(s) => vec![st.nodes.get(s).map_or("none".to_string(), |n| node_row(&format!("n{s}"), &n.labels, &n.props))],
         _ => vec![],
     };
     out.sort();
@@ -571,7 +659,140 @@ macro_rules! system {
                             Some(id) => vec![format!("{}", self.db.add_node_label(NodeId::new(id), LABELS[*l as usize % 3]))],
                             None => vec!["skipped".into()],
                         },
+                        HOp::CypherCreate(s, l, k, v) => {
+                            let text = format!("CREATE (n:{} {{{}: {v}}}) RETURN id(n)", LABELS[*l as usize % 3], KEYS[*k as usize % 2]);
+                            match self.sessions[*s].as_ref().unwrap().execute_cypher(&text).map(|r| r.rows).map_err(|e| format!("err:{e}")) {
+                                Ok(rows) => {
+                                    if let Some(id) = rows.first().and_then(|r| r.first()).and_then(val_i) {
+                                        self.reg_node(new_slot, id as u64);
+                                        vec!["created".into()]
+                                    } else {
+                                        vec!["created-without-id".into()]
+                                    }
+                                }
+                                Err(e) => vec![e],
+                            }
+                        }
+                        HOp::DeleteNodePlainQ(s, n) => match self.nid(*n) {
+                            Some(id) => vec![q(self.sessions[*s].as_ref().unwrap(), &format!("MATCH (n) WHERE id(n) = {id} DELETE n")).map(|_| "ok".to_string()).unwrap_or_else(|e| e)],
+                            None => vec!["skipped".into()],
+                        },
+                        HOp::DeleteEdgeQ(s, e) => match self.eid(*e) {
+                            Some(id) => vec![q(self.sessions[*s].as_ref().unwrap(), &format!("MATCH (a)-[r]->(b) WHERE id(r) = {id} DELETE r")).map(|_| "ok".to_string()).unwrap_or_else(|e| e)],
+                            None => vec!["skipped".into()],
+                        },
                         // ---------------- observations ----------------
+                        HOp::CypherLabelScan(s, l) => match self.sessions[*s].as_ref().unwrap().execute_cypher(&format!("MATCH (n:{}) RETURN id(n), labels(n), n.k, n.m", LABELS[*l as usize % 3])) {
+                            Ok(r) => self.node_rows(&r.rows),
+                            Err(e) => vec![format!("err:{e}")],
+                        },
+                        HOp::ParamsLabelScan(s, l) => match self.sessions[*s].as_ref().unwrap().execute_with_params(&format!("MATCH (n:{}) RETURN id(n), labels(n), n.k, n.m", LABELS[*l as usize % 3]), std::collections::HashMap::new()) {
+                            Ok(r) => self.node_rows(&r.rows),
+                            Err(e) => vec![format!("err:{e}")],
+                        },
+                        HOp::GremlinLabel(s, l) => match self.sessions[*s].as_ref().unwrap().execute_gremlin(&format!("g.V().hasLabel('{}')", LABELS[*l as usize % 3])) {
+                            Ok(r) => {
+                                let mut out: Vec<String> = r.rows.iter().map(|row| self.n(row.first().and_then(val_i).unwrap_or(-1) as u64)).collect();
+                                out.sort();
+                                out
+                            }
+                            Err(e) => vec![format!("err:{e}")],
+                        },
+                        HOp::GremlinOut(s) => match self.sessions[*s].as_ref().unwrap().execute_gremlin("g.V().out('R')") {
+                            Ok(r) => {
+                                let mut out: Vec<String> = r.rows.iter().map(|row| self.n(row.first().and_then(val_i).unwrap_or(-1) as u64)).collect();
+                                out.sort();
+                                out
+                            }
+                            Err(e) => vec![format!("err:{e}")],
+                        },
+                        HOp::GraphqlLabel(s, l) => match self.sessions[*s].as_ref().unwrap().execute_graphql(&format!("{{ {} {{ k m }} }}", LABELS[*l as usize % 3])) {
+                            Ok(r) => {
+                                let mut out: Vec<String> = r
+                                    .rows
+                                    .iter()
+                                    .map(|row| format!("k={},m={}", row.first().and_then(val_i).map_or("null".to_string(), |v| v.to_string()), row.get(1).and_then(val_i).map_or("null".to_string(), |v| v.to_string())))
+                                    .collect();
+                                out.sort();
+                                out
+                            }
+                            Err(e) => vec![format!("err:{e}")],
+                        },
+                        HOp::SumCount(s) => match q(self.sessions[*s].as_ref().unwrap(), "MATCH (n) RETURN sum(n.k), count(n)") {
+                            Ok(rows) => vec![format!(
+                                "{}/{}",
+                                rows.first().and_then(|r| r.first()).and_then(val_i).map_or("?".to_string(), |v| v.to_string()),
+                                rows.first().and_then(|r| r.get(1)).and_then(val_i).map_or("?".to_string(), |v| v.to_string())
+                            )],
+                            Err(e) => vec![e],
+                        },
+                        HOp::FilterGt(s, c) => match q(self.sessions[*s].as_ref().unwrap(), &format!("MATCH (n) WHERE n.k > {c} RETURN id(n)")) {
+                            Ok(rows) => {
+                                let mut out: Vec<String> = rows.iter().map(|row| self.n(row.first().and_then(val_i).unwrap_or(-1) as u64)).collect();
+                                out.sort();
+                                out
+                            }
+                            Err(e) => vec![e],
+                        },
+                        HOp::EdgeCount(s) => match q(self.sessions[*s].as_ref().unwrap(), "MATCH (a)-[r]->(b) RETURN count(r)") {
+                            Ok(rows) => vec![rows.first().and_then(|r| r.first()).and_then(val_i).map_or("?".to_string(), |v| v.to_string())],
+                            Err(e) => vec![e],
+                        },
+                        HOp::GetNodeProp(s, n, k) => match self.nid(*n) {
+                            Some(id) => vec![self.sessions[*s].as_ref().unwrap().get_node_property(NodeId::new(id), KEYS[*k as usize % 2]).as_ref().and_then(val_i).map_or("none".to_string(), |v| v.to_string())],
+                            None => vec!["none".into()],
+                        },
+                        HOp::NeighborsIn(s, n) => match self.nid(*n) {
+                            Some(id) => {
+                                let mut out: Vec<String> = self.sessions[*s].as_ref().unwrap().get_neighbors_incoming(NodeId::new(id)).iter().map(|(d, e)| format!("{}<-{}", self.e(e.as_u64()), self.n(d.as_u64()))).collect();
+                                out.sort();
+                                out
+                            }
+                            None => vec![],
+                        },
+                        HOp::NeighborsOutByType(s, n) => match self.nid(*n) {
+                            Some(id) => {
+                                let mut out: Vec<String> = self.sessions[*s].as_ref().unwrap().get_neighbors_outgoing_by_type(NodeId::new(id), "R").iter().map(|(d, e)| format!("{}->{}", self.e(e.as_u64()), self.n(d.as_u64()))).collect();
+                                out.sort();
+                                out
+                            }
+                            None => vec![],
+                        },
+                        HOp::EdgeExists(s, e) => match self.eid(*e) {
+                            Some(id) => vec![format!("{}", self.sessions[*s].as_ref().unwrap().edge_exists(EdgeId::new(id)))],
+                            None => vec!["false".into()],
+                        },
+                        HOp::Degree(s, n) => match self.nid(*n) {
+                            Some(id) => {
+                                let (o, i) = self.sessions[*s].as_ref().unwrap().get_degree(NodeId::new(id));
+                                vec![format!("{o}/{i}")]
+                            }
+                            None => vec!["0/0".into()],
+                        },
+                        HOp::TriplesBySubject(s, b) => match self.sessions[*s].as_ref().unwrap().execute_sparql(&format!("SELECT ?p ?o WHERE {{ <http://s{}> ?p ?o }}", b & 1)) {
+                            Ok(r) => {
+                                let mut out: Vec<String> = r
+                                    .rows
+                                    .iter()
+                                    .map(|row| match row.get(1) {
+                                        Some(Value::String(s)) => s.strip_prefix('o').map_or(format!("?{s}"), |t| format!("t{t}")),
+                                        other => format!("{other:?}"),
+                                    })
+                                    .collect();
+                                out.sort();
+                                out
+                            }
+                            Err(e) => vec![format!("err:{e}")],
+                        },
+                        HOp::DbIterEdges => {
+                            let mut out: Vec<String> = self.db.iter_edges().map(|x| self.e(x.id.as_u64())).collect();
+                            out.sort();
+                            out
+                        }
+                        HOp::DbGetNode(n) => match self.nid(*n) {
+                            Some(id) => vec![self.node_obj(&self.db.get_node(NodeId::new(id)))],
+                            None => vec!["none".into()],
+                        },
                         HOp::LabelScan(s, l) => match q(self.sessions[*s].as_ref().unwrap(), &format!("MATCH (n:{}) RETURN id(n), labels(n), n.k, n.m", LABELS[*l as usize % 3])) {
                             Ok(rows) => self.node_rows(&rows),
                             Err(e) => vec![e],
@@ -736,6 +957,69 @@ macro_rules! system {
                     }
                     nb.sort();
                     out.insert("neighbours", nb);
+                    // further access paths: other query languages, incoming side, degrees, direct iteration
+                    let mut cy = Vec::new();
+                    let mut gr = Vec::new();
+                    let mut gq = Vec::new();
+                    for l in LABELS {
+                        match fresh.execute_cypher(&format!("MATCH (n:{l}) RETURN id(n), labels(n), n.k, n.m")) {
+                            Ok(r) => cy.extend(self.node_rows(&r.rows).into_iter().map(|x| format!("{l}:{x}"))),
+                            Err(e) => cy.push(format!("err:{e}")),
+                        }
+                        match fresh.execute_gremlin(&format!("g.V().hasLabel('{l}')")) {
+                            Ok(r) => {
+                                let mut v: Vec<String> = r.rows.iter().map(|row| format!("{l}:{}", self.n(row.first().and_then(val_i).unwrap_or(-1) as u64))).collect();
+                                v.sort();
+                                gr.extend(v);
+                            }
+                            Err(e) => gr.push(format!("err:{e}")),
+                        }
+                        match fresh.execute_graphql(&format!("{{ {l} {{ k m }} }}")) {
+                            Ok(r) => {
+                                let mut v: Vec<String> = r
+                                    .rows
+                                    .iter()
+                                    .map(|row| format!("{l}:k={},m={}", row.first().and_then(val_i).map_or("null".to_string(), |v| v.to_string()), row.get(1).and_then(val_i).map_or("null".to_string(), |v| v.to_string())))
+                                    .collect();
+                                v.sort();
+                                gq.extend(v);
+                            }
+                            Err(e) => gq.push(format!("err:{e}")),
+                        }
+                    }
+                    out.insert("cypher-label-scan", cy);
+                    out.insert("gremlin-hasLabel", gr);
+                    out.insert("graphql-label", gq);
+                    let mut nin = Vec::new();
+                    let mut deg = Vec::new();
+                    for s in 0..slots_n {
+                        if let Some(id) = self.nid(s) {
+                            for (d, e) in fresh.get_neighbors_incoming(NodeId::new(id)) {
+                                nin.push(format!("{}-{}->{}", self.n(d.as_u64()), self.e(e.as_u64()), self.n(id)));
+                            }
+                            let (o, i) = fresh.get_degree(NodeId::new(id));
+                            if (o, i) != (0, 0) {
+                                deg.push(format!("{}:{o}/{i}", self.n(id)));
+                            }
+                        }
+                    }
+                    nin.sort();
+                    out.insert("neighbours-in", nin);
+                    out.insert("get_degree", deg);
+                    let mut ie: Vec<String> = self.db.iter_edges().map(|x| self.e(x.id.as_u64())).collect();
+                    ie.sort();
+                    out.insert("db.iter_edges", ie);
+                    out.insert(
+                        "aggregate",
+                        vec![match qq("MATCH (n) RETURN sum(n.k), count(n)") {
+                            Ok(rows) => format!(
+                                "{}/{}",
+                                rows.first().and_then(|r| r.first()).and_then(val_i).map_or("?".to_string(), |v| v.to_string()),
+                                rows.first().and_then(|r| r.get(1)).and_then(val_i).map_or("?".to_string(), |v| v.to_string())
+                            ),
+                            Err(e) => e,
+                        }],
+                    );
                     out.insert("db.counts", vec![format!("{}/{}", self.db.node_count(), self.db.edge_count())]);
                     out.insert(
                         "triples",
@@ -799,6 +1083,43 @@ fn spec_dump(st: &SState) -> BTreeMap<&'static str, Vec<String>> {
     let mut nb: Vec<String> = st.edges.iter().map(|(e, x)| format!("n{}-e{e}->n{}", x.src, x.dst)).collect();
     nb.sort();
     out.insert("neighbours", nb);
+    let (mut cy, mut gr, mut gq) = (Vec::new(), Vec::new(), Vec::new());
+    for l in LABELS {
+        let mut v: Vec<String> = st.nodes.iter().filter(|(_, n)| n.labels.contains(l)).map(|(s, n)| format!("{l}:{}", node_row(&format!("n{s}"), &n.labels, &n.props))).collect();
+        v.sort();
+        cy.extend(v);
+        let mut v: Vec<String> = st.nodes.iter().filter(|(_, n)| n.labels.contains(l)).map(|(s, _)| format!("{l}:n{s}")).collect();
+        v.sort();
+        gr.extend(v);
+        let mut v: Vec<String> = st
+            .nodes
+            .values()
+            .filter(|n| n.labels.contains(l))
+            .map(|n| format!("{l}:k={},m={}", n.props.get("k").map_or("null".to_string(), |v| v.to_string()), n.props.get("m").map_or("null".to_string(), |v| v.to_string())))
+            .collect();
+        v.sort();
+        gq.extend(v);
+    }
+    out.insert("cypher-label-scan", cy);
+    out.insert("gremlin-hasLabel", gr);
+    out.insert("graphql-label", gq);
+    let mut nin: Vec<String> = st.edges.iter().map(|(e, x)| format!("n{}-e{e}->n{}", x.src, x.dst)).collect();
+    nin.sort();
+    out.insert("neighbours-in", nin);
+    let mut deg = Vec::new();
+    for s in st.nodes.keys() {
+        let (o, i) = (st.edges.values().filter(|x| x.src == *s).count(), st.edges.values().filter(|x| x.dst == *s).count());
+        if (o, i) != (0, 0) {
+            deg.push(format!("n{s}:{o}/{i}"));
+        }
+    }
+    out.insert("get_degree", deg);
+    out.insert("db.iter_edges", {
+        let mut v: Vec<String> = st.edges.keys().map(|e| format!("e{e}")).collect();
+        v.sort();
+        v
+    });
+    out.insert("aggregate", vec![format!("{}/{}", st.nodes.values().filter_map(|n| n.props.get("k")).sum::<i64>(), st.nodes.len())]);
     out.insert("db.counts", vec![format!("{}/{}", st.nodes.len(), st.edges.len())]);
     out.insert("triples", st.triples.iter().map(|t| format!("t{t}")).collect());
     out
@@ -858,7 +1179,7 @@ pub fn spec_apply(spec: &mut Spec, op: &HOp, new_slot: usize, st: Option<usize>)
             let labels: Vec<String> = ls.iter().map(|l| LABELS[*l as usize % 3].to_string()).collect();
             spec.write(st, W::CreateNode(new_slot, labels, vec![(KEYS[*k as usize % 2].to_string(), *v)]));
         }
-        HOp::InsertQ(_, l, k, v) => {
+        HOp::InsertQ(_, l, k, v) | HOp::CypherCreate(_, l, k, v) => {
             spec.write(st, W::CreateNode(new_slot, vec![LABELS[*l as usize % 3].to_string()], vec![(KEYS[*k as usize % 2].to_string(), *v)]));
         }
         HOp::CreateEdge(_, a, b) => spec.write(st, W::CreateEdge(new_slot, *a, *b, None)),
@@ -868,8 +1189,9 @@ pub fn spec_apply(spec: &mut Spec, op: &HOp, new_slot: usize, st: Option<usize>)
         HOp::RemovePropQ(_, nn, k) => spec.write(st, W::RemoveProp(*nn, KEYS[*k as usize % 2].to_string())),
         HOp::AddLabelQ(_, nn, l) | HOp::DbAddLabel(nn, l) => spec.write(st, W::AddLabel(*nn, LABELS[*l as usize % 3].to_string())),
         HOp::RemoveLabelQ(_, nn, l) => spec.write(st, W::RemoveLabel(*nn, LABELS[*l as usize % 3].to_string())),
-        HOp::DeleteNodeQ(_, nn) => spec.write(st, W::DetachDelete(*nn)),
+        HOp::DeleteNodeQ(_, nn) | HOp::DeleteNodePlainQ(_, nn) => spec.write(st, W::DetachDelete(*nn)),
         HOp::DbDeleteEdge(e) => spec.write(None, W::DeleteEdge(*e)),
+        HOp::DeleteEdgeQ(_, e) => spec.write(st, W::DeleteEdge(*e)),
         HOp::TripleInsert(_, t) => spec.write(st, W::TripleIns(*t)),
         HOp::TripleDelete(_, t) => spec.write(st, W::TripleDel(*t)),
         _ => {}
@@ -978,7 +1300,7 @@ pub fn exec(cfg: &Config, ops: &[HOp]) -> ExecResult {
         }
         // slot for creations
         let (is_node_create, is_edge_create) = (
-            matches!(op, HOp::CreateNode(..) | HOp::CreateNodeProps(..) | HOp::InsertQ(..) | HOp::DbCreateNode(_)),
+            matches!(op, HOp::CreateNode(..) | HOp::CreateNodeProps(..) | HOp::InsertQ(..) | HOp::DbCreateNode(_) | HOp::CypherCreate(..)),
             matches!(op, HOp::CreateEdge(..) | HOp::CreateEdgeQ(..)),
         );
         let new_slot = if is_node_create { n_slots } else { e_slots };
@@ -1130,7 +1452,7 @@ pub fn exec(cfg: &Config, ops: &[HOp]) -> ExecResult {
 // Generation
 // ------------------------------------------------------------------------------------------
 
-const MUT_KINDS: usize = 14;
+const MUT_KINDS: usize = 16;
 
 struct Gen<'a> {
     rng: &'a mut Prng,
@@ -1178,7 +1500,7 @@ impl Gen<'_> {
         let s = op.session();
         let in_tx = s.is_some_and(|s| self.spec.txs[s].is_some());
         let st = if in_tx { s } else { None };
-        let is_n = matches!(op, HOp::CreateNode(..) | HOp::CreateNodeProps(..) | HOp::InsertQ(..) | HOp::DbCreateNode(_));
+        let is_n = matches!(op, HOp::CreateNode(..) | HOp::CreateNodeProps(..) | HOp::InsertQ(..) | HOp::DbCreateNode(_) | HOp::CypherCreate(..));
         let is_e = matches!(op, HOp::CreateEdge(..) | HOp::CreateEdgeQ(..));
         let slot = if is_n { self.n_slots } else { self.e_slots };
         // locks
@@ -1187,14 +1509,14 @@ impl Gen<'_> {
                 HOp::SetPropQ(_, n, ..) | HOp::RemovePropQ(_, n, _) | HOp::AddLabelQ(_, n, _) | HOp::RemoveLabelQ(_, n, _) => {
                     self.locked_n.insert(*n, s);
                 }
-                HOp::DeleteNodeQ(_, n) => {
+                HOp::DeleteNodeQ(_, n) | HOp::DeleteNodePlainQ(_, n) => {
                     self.locked_n.insert(*n, s);
                     let inc: Vec<usize> = self.spec.view(st).edges.iter().filter(|(_, x)| x.src == *n || x.dst == *n).map(|(e, _)| *e).collect();
                     for e in inc {
                         self.locked_e.insert(e, s);
                     }
                 }
-                HOp::SetEdgePropQ(_, e, _) => {
+                HOp::SetEdgePropQ(_, e, _) | HOp::DeleteEdgeQ(_, e) => {
                     self.locked_e.insert(*e, s);
                     // its endpoints must not be detach-deleted by someone else meanwhile
                     if let Some(x) = self.spec.view(st).edges.get(e) {
@@ -1266,6 +1588,14 @@ impl Gen<'_> {
             }
             11 => HOp::TripleInsert(s, rng.below(u64::from(N_TRIPLES)) as u8),
             12 => HOp::TripleDelete(s, rng.below(u64::from(N_TRIPLES)) as u8),
+            14 => HOp::CypherCreate(s, rng.below(3) as u8, rng.below(2) as u8, u),
+            15 => {
+                let cands: Vec<usize> = nodes.iter().copied().filter(|n| !incident_of.contains_key(n)).collect();
+                if cands.is_empty() {
+                    return None;
+                }
+                HOp::DeleteNodePlainQ(s, *rng.pick(&cands))
+            }
             // direct API: only outside a transaction of this session and on unlocked targets
             _ => {
                 if in_tx {
@@ -1284,7 +1614,29 @@ impl Gen<'_> {
     fn observation(&mut self, s: usize) -> HOp {
         let all_n = self.n_slots.max(1);
         let all_e = self.e_slots.max(1);
+        let uniq = self.uniq;
         let rng = &mut *self.rng;
+        if rng.chance(2, 5) {
+            // the further access paths: other languages, aggregates, direct accessors
+            return match rng.below(16) {
+                0 => HOp::CypherLabelScan(s, rng.below(3) as u8),
+                1 => HOp::ParamsLabelScan(s, rng.below(3) as u8),
+                2 => HOp::GremlinLabel(s, rng.below(3) as u8),
+                3 => HOp::GremlinOut(s),
+                4 => HOp::GraphqlLabel(s, rng.below(3) as u8),
+                5 => HOp::SumCount(s),
+                6 => HOp::FilterGt(s, rng.range(0, uniq.max(1) as u64) as i64),
+                7 => HOp::EdgeCount(s),
+                8 => HOp::GetNodeProp(s, rng.usize(all_n), rng.below(2) as u8),
+                9 => HOp::NeighborsIn(s, rng.usize(all_n)),
+                10 => HOp::NeighborsOutByType(s, rng.usize(all_n)),
+                11 => HOp::EdgeExists(s, rng.usize(all_e)),
+                12 => HOp::Degree(s, rng.usize(all_n)),
+                13 => HOp::TriplesBySubject(s, rng.below(2) as u8),
+                14 => HOp::DbIterEdges,
+                _ => HOp::DbGetNode(rng.usize(all_n)),
+            };
+        }
         match rng.below(13) {
             0 | 1 => HOp::LabelScan(s, rng.below(3) as u8),
             2 | 3 => HOp::AllScan(s),
